@@ -1,11 +1,19 @@
 """C13 — rate_limit spaces deliveries by >= interval and keeps order; delay keeps
 order and count.  Engine S on virtual time (grid 0.5, interval 1.0)."""
-from ..sched import Violation
+from ..sched import Violation, Injected
 from .. import spar
 from ._pipes import PipeScenario
 
 MOD = __name__
-INTERVAL = 1.0
+
+
+def interval_of(spec):
+    a = spec.split(":", 1)[1]
+    if a.endswith("ms"):
+        return float(a[:-2]) / 1000.0
+    if a.endswith("s"):
+        return float(a[:-1])
+    return float(a)
 
 
 class RateScenario(PipeScenario):
@@ -14,6 +22,41 @@ class RateScenario(PipeScenario):
     def __init__(self, **p):
         super().__init__(**p)
         self.horizon = p.get("horizon", 2.0)
+        self.interval = interval_of(p["nodes"][0])
+        self.opts = tuple(p.get("opts", ()))
+
+    def build(self):
+        if "twoup" not in self.opts:
+            return super().build()
+        # one timing node fed by two upstream streams (the second attached with connect)
+        from streamz import Stream
+        p = self.params
+        self.src = Stream(asynchronous=True, loop=self.ioloop)
+        self.src2 = Stream(asynchronous=True, loop=self.ioloop)
+        node = self.build_node(self.src, p["nodes"][0])
+        self.src2.connect(node)
+        self.nodes = [node]
+        self.last = node
+        self.attach_sink(node)
+        self.make_producers()
+        if p.get("marks"):
+            self.clock_marks(p["marks"])
+
+    def make_sink_fn(self, kind, name):
+        inner = super().make_sink_fn(kind, name)
+        if "failsink" not in self.opts:
+            return inner
+        scen = self
+
+        def f(x):
+            r = inner(x)
+            if x == 2:
+                raise Injected("sink(2)")       # the consumer rejects one element of the line
+            return r
+        return f
+
+    def expected_background(self, err):
+        return ("failsink" in self.opts and "Injected" in (err[1] + err[2])) or super().expected_background(err)
 
     def make_producers(self):
         p = self.params
@@ -22,7 +65,7 @@ class RateScenario(PipeScenario):
             self.add_producer("p", self.src, list(range(1, n + 1)), mode=p["mode"])
         else:
             self.add_producer("p", self.src, list(range(1, n)), mode=p["mode"])
-            self.add_producer("q", self.src, [100], mode=p["mode"])
+            self.add_producer("q", self.src2 if "twoup" in self.opts else self.src, [100], mode=p["mode"])
 
     def site(self):
         return self.params["nodes"][0].split(":")[0]
@@ -43,11 +86,15 @@ class RateScenario(PipeScenario):
         want = [v for _, v in arr]
         if vals != want[:len(vals)]:
             return Violation("order", site, "", dict(arrivals=arr, deliveries=dl))
-        if self.emit_raised():
-            return Violation("emit-raised", site, "", self.emit_raised())
+        er = self.emit_raised()
+        if "failsink" in self.opts:
+            # only the rejected element's own emit may fail
+            er = [e for e in er if not (e[3] == 2 and e[4] == "Injected")]
+        if er:
+            return Violation("emit-raised", site, "", er)
         if site == "rate_limit":
             for (t0, a), (t1, b) in zip(dl, dl[1:]):
-                if t1 - t0 < INTERVAL:
+                if t1 - t0 < self.interval - 1e-9:
                     return Violation("spacing<interval", site, "", dict(arrivals=arr, deliveries=dl))
             # idle => immediate: arrival at t, everything earlier delivered and the last
             # delivery at least one interval ago => delivered at t
@@ -60,7 +107,7 @@ class RateScenario(PipeScenario):
                     if any(x > t for x in earlier):
                         continue
                     lastd = max(earlier) if earlier else None
-                    if lastd is None or t - lastd >= INTERVAL:
+                    if lastd is None or t - lastd >= self.interval:
                         if v in dmap and dmap[v] != t:
                             return Violation("idle-delayed", site, "", dict(arrivals=arr, deliveries=dl))
                         if v not in dmap and (final or self.loop.time() > t):
@@ -75,9 +122,11 @@ class RateScenario(PipeScenario):
 
 
 def factory(key):
-    node, kind, nprod, mode, n, horizon = key
-    marks = tuple(0.5 * i for i in range(1, int(horizon * 2) + 1))
-    return lambda: RateScenario(nodes=(node,), kind=kind, nprod=nprod, mode=mode, n=n, marks=marks, horizon=horizon)
+    node, kind, nprod, mode, n, horizon = key[:6]
+    opts = tuple(key[6].split("+")) if len(key) > 6 else ()
+    grid = 0.25 if interval_of(node) < 1.0 else 0.5
+    marks = tuple(grid * i for i in range(1, int(horizon / grid) + 1))
+    return lambda: RateScenario(nodes=(node,), kind=kind, nprod=nprod, mode=mode, n=n, marks=marks, horizon=horizon, opts=opts)
 
 
 def plan(ctx):
@@ -99,6 +148,19 @@ def plan(ctx):
             jobs.append(((node + "s", "sync", 1, "burst", 3, 1.5), 0))
             # four un-awaited elements: two parked behind each other and a late arrival
             jobs.append(((node, "sync", 1, "burst", 4, 2.5), 1))
+    for name in ("rate_limit", "delay"):
+        T = ctx.thorough
+        # fractional intervals, as a number and as a string that is not a whole number of seconds
+        jobs.append(((name + ":0.5", "sync", 1, "burst", 3, 1.0), 1))
+        jobs.append(((name + ":500ms", "sync", 1, "burst", 3, 1.0), 1 if T else 0))
+        jobs.append(((name + ":1500ms", "sync", 1, "burst", 2, 2.0), 0))
+        # a consumer that rejects one element: spacing and order of the others are unaffected
+        if name == "rate_limit":     # (delay forwards from a loop of its own, which a failing consumer ends: nothing stated)
+            jobs.append(((name + ":1", "sync", 1, "burst", 4, 2.5, "failsink"), 1))
+            jobs.append(((name + ":1", "sync", 1, "await", 3, 2.0, "failsink"), 1))
+        # two upstream streams feeding the same node
+        jobs.append(((name + ":1", "sync", 2, "burst", 3, 1.5, "twoup"), 1))
+        jobs.append(((name + ":1", "future", 2, "await", 3, 1.5, "twoup"), 1 if T else 0))
     return jobs
 
 
